@@ -141,6 +141,12 @@ Status ==                       \* the transfer is over: forget it
     /\ in' = [e |-> "status"] /\ out' = NoOut
     /\ UNCHANGED cid
 
+Reset ==                        \* reset of the device's clock domain, at any time: the transfer is forgotten,
+    /\ stage' = "idle" /\ naks' = 0 /\ tog' = 1          \* the next request is served from scratch
+    /\ xfer' = [v |-> 0, wlen |-> 0] /\ sent' = <<>> /\ pkts' = <<>>
+    /\ in' = [e |-> "reset"] /\ out' = NoOut
+    /\ UNCHANGED cid
+
 -----------------------------------------------------------------------------
 (* Prop -- property C09 over the ghost log. *)
 IsPrefix(s, t) == Len(s) <= Len(t) /\ s = SubSeq(t, 1, Len(s))
